@@ -286,6 +286,21 @@ def wait_port(host, port, proc, timeout):
 
 
 def key_effect_job(args):
+    """retry wrapper: port collisions between parallel jobs / transient socket errors are not verdicts"""
+    last = None
+    for attempt in range(3):
+        try:
+            r = _key_effect_job(args)
+            if r.get("status") == "skipped" or r.get("base_ok", True):
+                return r
+            last = r
+        except (OSError, wire.Closed, wire.Timeout) as ex:
+            last = dict(path=args[2], status="inconclusive", why=repr(ex))
+        time.sleep(0.2 * (attempt + 1))
+    return last
+
+
+def _key_effect_job(args):
     """base vs perturbed probe for one documented key; returns finding or None"""
     binary, hooks, path, seed = args
     rng = random.Random(seed)
@@ -387,18 +402,24 @@ def run_validation_case(args):
     p = subprocess.Popen([binary, "-c", cfgp] + cli, cwd=d, env=env, stdin=subprocess.DEVNULL,
                          stdout=subprocess.PIPE, stderr=subprocess.STDOUT)
     try:
-        up = wait_port("127.0.0.1", port, p, 3.0 if exp == "serve" else 1.5)
+        up = wait_port("127.0.0.1", port, p, 10.0 if exp == "serve" else 1.5)
         rc = p.poll()
         served = False
-        if up:
+        if up and rc is None:  # our process is alive (somebody else's server may own a reused port otherwise)
             try:
                 c = wire.Client(port, timeout=3.0)
                 c.send("PING x")
                 c.read_until(lambda m: m.verb == "451", 3.0)
-                served = True
+                served = p.poll() is None
                 c.close()
             except (wire.Closed, wire.Timeout, OSError):
                 pass
+        if exp == "exit" and rc is None:
+            # give a slow start-up failure a moment before calling it "kept running"
+            try:
+                rc = p.wait(timeout=3.0)
+            except subprocess.TimeoutExpired:
+                rc = None
         out = ""
         if rc is not None:
             out = p.stdout.read().decode("utf-8", "replace")[-300:]
